@@ -135,7 +135,50 @@ fn p32(s: &str) -> Option<u32> {
     s.parse().ok()
 }
 
+/// a writer that takes at most `cap` bytes per `write` call (a pipe or socket with little room): `AsRawMsg::get_*` are
+/// writer-generic public methods, so a message streamed through them must come out byte for byte as `serialize()` builds it
+struct Trickle {
+    cap: usize,
+    got: Vec<u8>,
+}
+impl std::io::Write for Trickle {
+    fn write(&mut self, b: &[u8]) -> std::io::Result<usize> {
+        let n = b.len().min(self.cap);
+        self.got.extend_from_slice(&b[..n]);
+        Ok(n)
+    }
+    fn flush(&mut self) -> std::io::Result<()> {
+        Ok(())
+    }
+}
+
+pub static STREAM_DIFF: std::sync::atomic::AtomicBool = std::sync::atomic::AtomicBool::new(false);
+
+/// `serialize::serialize`, cross-checked against the same message streamed through the trait methods into trickling writers
+pub fn ser<T: portus::serialize::AsRawMsg>(m: &T) -> portus::Result<Vec<u8>> {
+    let full = serialize::serialize(m);
+    for cap in [1usize, 5, 33, 4096] {
+        let mut w = Trickle { cap, got: vec![] };
+        let r = m.get_u32s(&mut w).and_then(|_| m.get_u64s(&mut w)).and_then(|_| m.get_bytes(&mut w));
+        match (&full, r) {
+            (Ok(f), Ok(())) if f.len() >= 8 && f[8..] == w.got[..] => {}
+            (Ok(_), _) => STREAM_DIFF.store(true, std::sync::atomic::Ordering::SeqCst),
+            (Err(_), _) => {} // serialize() refuses the message as a whole (too long): nothing to compare
+        }
+    }
+    full
+}
+
 pub fn enc(args: &[&str]) -> String {
+    STREAM_DIFF.store(false, std::sync::atomic::Ordering::SeqCst);
+    let r = enc_inner(args);
+    if STREAM_DIFF.load(std::sync::atomic::Ordering::SeqCst) {
+        return format!("STREAMDIFF {}", r);
+    }
+    r
+}
+
+fn enc_inner(args: &[&str]) -> String {
     let r = match args.get(0).copied() {
         Some("CR") if args.len() == 9 => {
             let v: Option<Vec<u32>> = args[1..8].iter().map(|s| p32(s)).collect();
@@ -153,7 +196,7 @@ pub fn enc(args: &[&str]) -> String {
             } else {
                 return "BADARG".into();
             };
-            serialize::serialize(&create::Msg {
+            ser(&create::Msg {
                 sid: v[0],
                 init_cwnd: v[1],
                 mss: v[2],
@@ -174,7 +217,7 @@ pub fn enc(args: &[&str]) -> String {
                 args[4].split(',').map(|s| s.parse().ok()).collect()
             };
             match (sid, uid, nf, fields) {
-                (Some(sid), Some(uid), Some(nf), Some(fields)) => serialize::serialize(&measure::Msg {
+                (Some(sid), Some(uid), Some(nf), Some(fields)) => ser(&measure::Msg {
                     sid,
                     program_uid: uid,
                     num_fields: nf,
@@ -184,7 +227,7 @@ pub fn enc(args: &[&str]) -> String {
             }
         }
         Some("RD") if args.len() == 2 => match p32(args[1]) {
-            Some(id) => serialize::serialize(&ready::Msg { id }),
+            Some(id) => ser(&ready::Msg { id }),
             None => return "BADARG".into(),
         },
         Some("CP") | Some("UF") | Some("IN") => return crate::lang::enc_ctl(args),
@@ -208,4 +251,51 @@ pub fn rt(args: &[&str]) -> String {
     }
     let h = hex(&bytes);
     format!("OK {} => {}", h, decs(&[&h]))
+}
+
+
+/// DECPAR <hex> <hex> ...: every buffer decoded alone (the answers), then all of them decoded 3000 times each on their own threads
+/// at the same time: a decoder has no business sharing state between threads (`STABLE` | `UNSTABLE thread=<i> <got>`)
+pub fn decpar(args: &[&str]) -> String {
+    let bufs: Option<Vec<Vec<u8>>> = args.iter().map(|h| unhex(h)).collect();
+    let bufs = match bufs {
+        Some(b) if b.len() >= 2 && b.len() <= 16 => b,
+        _ => return "BADARG".into(),
+    };
+    let one = |b: &[u8]| match Msg::from_buf(b) {
+        Ok((m, n)) => show_msg(&m, n),
+        Err(_) => "ERR".to_string(),
+    };
+    let alone: Vec<String> = bufs.iter().map(|b| one(b)).collect();
+    let go = std::sync::Arc::new(std::sync::Barrier::new(bufs.len()));
+    let hs: Vec<_> = bufs
+        .into_iter()
+        .zip(alone.clone())
+        .enumerate()
+        .map(|(i, (b, want))| {
+            let go = go.clone();
+            std::thread::spawn(move || {
+                go.wait();
+                for _ in 0..3000 {
+                    let got = match Msg::from_buf(&b) {
+                        Ok((m, n)) => show_msg(&m, n),
+                        Err(_) => "ERR".to_string(),
+                    };
+                    if got != want {
+                        return Some(format!("UNSTABLE thread={} {}", i, got));
+                    }
+                }
+                None
+            })
+        })
+        .collect();
+    let mut verdict = "STABLE".to_string();
+    for h in hs {
+        match h.join() {
+            Ok(Some(v)) => verdict = v,
+            Ok(None) => {}
+            Err(_) => verdict = "UNSTABLE PANIC".to_string(),
+        }
+    }
+    format!("{} || {}", alone.join(" || "), verdict)
 }
